@@ -2,7 +2,7 @@ From CR Require Import Model.Group gen.ExtGroup gen.ExtAdvertise.
 From Coq Require Import Lia Arith.
 Local Open Scope nat_scope.
 
-Lemma extracted_all_true : extracted = mkG true true true true true.
+Lemma extracted_all_true : extracted = mkG true true true true true true.
 Proof. reflexivity. Qed.
 Lemma cap_is : cap = 16.  Proof. reflexivity. Qed.
 Local Opaque cap.
@@ -55,7 +55,7 @@ Ltac fin := repeat split; intros; try discriminate; try congruence; try lia; aut
   | HS : S ?s <> Ssel, I1 : S ?s <> Ssel -> _ |- _ => destruct (I1 HS); try congruence; try lia end.
 
 Section WithExtracted.
-Let g := mkG true true true true true.
+Let g := mkG true true true true true true.
 
 (* every step (internal or environment) of a cancelled group keeps it cancelled, keeps the
    invariant and strictly decreases the measure *)
@@ -168,7 +168,7 @@ End WithExtracted.
 
 (* ---- consequences *)
 Section Teardown.
-Let g := mkG true true true true true.
+Let g := mkG true true true true true true.
 
 (* every maximal execution from s reaches the state in which every member has returned, and
    until then some goroutine can always move by itself (no deadlock) *)
@@ -265,10 +265,10 @@ Inductive reach_g (gd : guards) : st -> Prop :=
 (* Listen without cancel-before-wait: a read error leaves the listener waiting forever for its
    interrupt goroutine while the group is not cancelled (the task stays half-alive) *)
 Lemma legacy_listen_deadlock :
-  exists s, reach_g (mkG true true true true false) s /\ L s = Lexit2 true /\ I s = Iwait /\ gc s = false /\
-            steps_L (mkG true true true true false) s ++ steps_I s = [].
+  exists s, reach_g (mkG true true true true false true) s /\ L s = Lexit2 true /\ I s = Iwait /\ gc s = false /\
+            steps_L (mkG true true true true false true) s ++ steps_I s = [].
 Proof.
-  set (gd := mkG true true true true false).
+  set (gd := mkG true true true true false true).
   set (s1 := set_L init Lread). set (s2 := set_L s1 (Lexit1 true)). set (s3 := set_L s2 (Lexit2 true)).
   exists s3. split; [|repeat split; reflexivity].
   assert (R1 : reach_g gd s1) by (apply (rg_step gd init s1); [constructor|vm_compute; auto 20]).
@@ -279,7 +279,7 @@ Qed.
 (* the listener's request-channel send without a <-ctx.Done() case: with the channel full and the
    scheduler gone the listener blocks forever although the group is cancelled *)
 Section LegacySend.
-Let gd := mkG false true true true true.
+Let gd := mkG false true true true true true.
 
 Lemma in_steps_internal s s' : In s' (internal gd s) -> In s' (steps gd s).
 Proof. intros H. unfold steps. apply in_or_app. left. exact H. Qed.
@@ -311,7 +311,7 @@ Proof.
   set (s0 := set_q init 16) in R0.
   set (s1 := set_L s0 Lread). set (s2 := set_L s1 Lsend).                 (* the 17th solicitation *)
   set (s3 := set_fail (set_W s2 Wdone)).                                    (* a link event cancels the group *)
-  set (s4 := set_stopped (set_S s3 (Sstop false))). set (s5 := set_S s4 Sdone).
+  set (s4 := set_stopped (set_S s3 (Sstop false))). set (s5 := set_scancel (set_S s4 Sdone)).
   set (s6 := set_M s5 Mdone). set (s7 := set_dl (set_I s6 Idone)).
   assert (R1 : reach_g gd s1) by (apply (rg_step gd s0 s1 R0); vm_compute; auto 30).
   assert (R2 : reach_g gd s2) by (apply (rg_step gd s1 s2 R1); vm_compute; auto 30).
@@ -323,3 +323,41 @@ Proof.
   exists s7. split; [exact R7|]. split; [reflexivity|]. split; vm_compute; reflexivity.
 Qed.
 End LegacySend.
+
+(* the scheduler's error branch with ws.stop() before cancel(): after taking the first of two
+   transmit errors it waits for the second failing worker, which can neither hand over its error
+   (nobody receives) nor see a cancellation (none was issued): both wait forever, the task is
+   half-alive *)
+Section LegacyStopFirst.
+Let gd := mkG true true true true true false.
+
+Lemma legacy_stop_before_cancel_deadlock :
+  exists s, reach_g gd s /\ gc s = false /\ S s = Sstop true /\ ke s = 1 /\
+            steps_S gd s = [] /\ steps_K gd s = [].
+Proof.
+  set (s1 := set_pending (set_q init 0) 0).
+  (* two requests are taken and scheduled, both timers fire, both writes fail *)
+  set (a1 := set_L init Lread). set (a2 := set_L a1 Lsend). set (a3 := set_L (set_q a2 1) Lcheck).
+  set (a4 := set_pending (set_q a3 0) 1).
+  set (b1 := set_L a4 Lread). set (b2 := set_L b1 Lsend). set (b3 := set_L (set_q b2 1) Lcheck).
+  set (b4 := set_pending (set_q b3 0) 2).
+  set (c1 := set_kw (set_pending b4 1) 1). set (c2 := set_kw (set_pending c1 0) 2).
+  set (d1 := set_ke (set_kw c2 1) 1). set (d2 := set_ke (set_kw d1 0) 2).
+  set (e1 := set_stopped (set_S (set_ke d2 1) (Sstop true))).
+  assert (R : reach_g gd e1).
+  { assert (Ra1 : reach_g gd a1) by (apply (rg_step gd init a1); [constructor|vm_compute; auto 30]).
+    assert (Ra2 : reach_g gd a2) by (apply (rg_step gd a1 a2 Ra1); vm_compute; auto 30).
+    assert (Ra3 : reach_g gd a3) by (apply (rg_step gd a2 a3 Ra2); vm_compute; auto 30).
+    assert (Ra4 : reach_g gd a4) by (apply (rg_step gd a3 a4 Ra3); vm_compute; auto 30).
+    assert (Rb1 : reach_g gd b1) by (apply (rg_step gd a4 b1 Ra4); vm_compute; auto 30).
+    assert (Rb2 : reach_g gd b2) by (apply (rg_step gd b1 b2 Rb1); vm_compute; auto 30).
+    assert (Rb3 : reach_g gd b3) by (apply (rg_step gd b2 b3 Rb2); vm_compute; auto 30).
+    assert (Rb4 : reach_g gd b4) by (apply (rg_step gd b3 b4 Rb3); vm_compute; auto 30).
+    assert (Rc1 : reach_g gd c1) by (apply (rg_step gd b4 c1 Rb4); vm_compute; auto 30).
+    assert (Rc2 : reach_g gd c2) by (apply (rg_step gd c1 c2 Rc1); vm_compute; auto 30).
+    assert (Rd1 : reach_g gd d1) by (apply (rg_step gd c2 d1 Rc2); vm_compute; auto 30).
+    assert (Rd2 : reach_g gd d2) by (apply (rg_step gd d1 d2 Rd1); vm_compute; auto 30).
+    apply (rg_step gd d2 e1 Rd2); vm_compute; auto 30. }
+  exists e1. split; [exact R|]. repeat split; vm_compute; reflexivity.
+Qed.
+End LegacyStopFirst.
